@@ -89,13 +89,16 @@ def make_body(name, script, rec):
                         outcome = "return-none"
                         return None
                 elif op == "wait":
-                    _, cls, reqs, timeout, wid, wev, on_timeout = a
+                    _, cls, reqs, timeout, wid, wev, on_timeout = a[:7]
+                    store_key = a[7] if len(a) > 7 else None   # record which event resolved the wait in the state store
                     reqs = {k: (ev.get("i", None) if v == "$i" else v) for k, v in dict(reqs).items()}
                     try:
                         r = await ctx.wait_for_event(cls, waiter_event=(wev(i=next(rec.eid)) if wev else None),
                                                      waiter_id=wid, requirements=dict(reqs), timeout=timeout)
                         rec.ev("wait-result", step=name, inv=inv, i=ev.get("i", None), wid=wid, want=cls.__name__,
                                reqs=dict(reqs), got=(type(r).__name__, r.get("i", None), dict(r._data)))
+                        if store_key:
+                            await ctx.store.set("%s%s" % (store_key, ev.get("i", None)), r.get("tag", None))
                     except asyncio.TimeoutError:
                         rec.ev("wait-timeout", step=name, inv=inv, i=ev.get("i", None), wid=wid)
                         if on_timeout == "raise":
@@ -111,6 +114,10 @@ def make_body(name, script, rec):
                     pass
                 elif op == "sleep":
                     await asyncio.sleep(a[1])
+                elif op == "sleep_first":
+                    # first attempt only: work for a[1] * (rank of the input among the step's inputs) seconds
+                    if rinfo is None or rinfo.retry_number == 0:
+                        await asyncio.sleep(a[1] * (ev.get("i", 1) or 1))
                 elif op == "raise_seq":
                     # raise the k-th exception object of the list on the execution with retry number k
                     if rinfo is not None and rinfo.retry_number < len(a[1]):
